@@ -97,6 +97,22 @@ fn lifetime_job(ctx: &Ctx, cfg: &Cfg, depth: usize) -> JobOut {
                         }
                     }
                 }
+                // ... and instances it was copied into with clone_from (one with the same periods but
+                // another multiplier and history, one with larger periods)
+                for via in [Via::CloneFromUsed, Via::CloneFromBigger] {
+                    let t = apply_via(cfg, s.dup(), via);
+                    if let Err((c, g, w)) = check_accessors(cfg, t.as_ref()) {
+                        return Some((i, (format!("{}-after-{}", c, via.tag()), g, w)));
+                    }
+                }
+                if cfg.kind.has_mult() {
+                    let mut t = make(&Cfg { mult: cfg.mult + 1.5, ..*cfg });
+                    t.apply(&alpha[0]);
+                    t.assign_from(s.as_ref());
+                    if let Err((c, g, w)) = check_accessors(cfg, t.as_ref()) {
+                        return Some((i, (format!("{}-after-clone_from(same periods, other multiplier)", c), g, w)));
+                    }
+                }
             }
             None
         }));
@@ -151,6 +167,14 @@ fn default_job(kind: Kind, depth: usize) -> JobOut {
         let r = std::panic::catch_unwind(std::panic::AssertUnwindSafe(|| {
             let mut a = make_default(kind);
             let mut b = make(&cfg);
+            // every other pattern: the default instance is reset / cloned / formatted before its first input
+            if ops.len() % 2 == 0 || matches!(ops[0], Op::S(x) if x < 3.0) {
+                a.reset();
+                a = a.dup();
+                let _ = a.dbg();
+                let _ = a.disp();
+                a.reset();
+            }
             for (i, op) in long.iter().enumerate() {
                 let oa = a.apply(op);
                 let ob = b.apply(op);
@@ -283,6 +307,6 @@ pub fn run(ctx: &Ctx) -> CheckResult {
     }
     res.extra.insert("defaults".into(), json!(ALL_KINDS.iter().map(|k| k.default_cfg().display_text()).collect::<Vec<_>>()));
     res.rule = "case = one constructor call (every period / period tuple / multiplier listed in bounds) under catch_unwind in the overflow-checked build: Err(InvalidParameter) iff some period is 0, else Ok with period()/multiplier()/Display equal to the arguments; plus accessors re-checked after every operation of every history, and Default::default() vs new(documented defaults) output-by-output; non-trivial = constructor with a period > 1 / accessor check after >= 1 operation".into();
-    res.bounds = format!("single-period constructors: every period 0..={pmax}; multi-period: every tuple over 0..={tmax} plus every period 0..={pmax} in each position; multipliers {{2,0,-1,NaN,1e300,2.71828,1e-5,1e305,-0.0,inf}}; boundary periods 2^31, 2^32, 2^53+1, usize::MAX-1, usize::MAX for allocation-free indicators and 2^16, 2^20, 2^24, 2^24+1, 2^25 for windowed ones; accessors (also on a clone and on a bincode-restored copy) after every op of every history in seq(values+special+reset, {}); Default vs new(defaults) on all 4^{} input patterns", if th { 5 } else { 4 }, if th { 5 } else { 4 });
+    res.bounds = format!("single-period constructors: every period 0..={pmax}; multi-period: every tuple over 0..={tmax} plus every period 0..={pmax} in each position; multipliers {{2,0,-1,NaN,1e300,2.71828,1e-5,1e305,-0.0,inf}}; boundary periods 2^31, 2^32, 2^53+1, usize::MAX-1, usize::MAX for allocation-free indicators and 2^16, 2^20, 2^24, 2^24+1, 2^25 for windowed ones; accessors (also on a clone, on a bincode-restored copy and on instances overwritten with clone_from) after every op of every history in seq(values+special+reset, {}); Default (also reset / cloned / formatted before its first input) vs new(defaults) on all 4^{} input patterns", if th { 5 } else { 4 }, if th { 5 } else { 4 });
     res
 }
